@@ -52,10 +52,10 @@ pub struct OracleState {
 	pub last_bump_rate: BTreeMap<(usize, [u8; 32]), u32>,
 	/// (node, chan) -> step at which a ChannelForceClosed{should_broadcast: true} update reached Watch
 	pub fc_update_step: BTreeMap<(usize, usize), u64>,
-	/// C11-2: (channel, sending node, payment hash) -> htlc ids of the update_add_htlc messages the
+	/// C11-3: (channel, sending node, payment hash) -> htlc ids of the update_add_htlc messages the
 	/// node put on the wire (each came with a commitment_signed: the peer may hold the HTLC)
 	pub adds_on_wire: BTreeMap<(usize, usize, [u8; 32]), BTreeSet<u64>>,
-	/// C11-2: (channel, node that offered the HTLC, htlc id) of every update_fail(_malformed)_htlc
+	/// C11-3: (channel, node that offered the HTLC, htlc id) of every update_fail(_malformed)_htlc
 	/// and update_fulfill_htlc delivered to that node
 	pub removes_delivered: BTreeSet<(usize, usize, u64)>,
 }
@@ -1114,7 +1114,7 @@ impl World {
 		}
 	}
 
-	/// C11-2: a sender gives up on a path whose HTLC the first-hop peer may hold (the add went out
+	/// C11-3: a sender gives up on a path whose HTLC the first-hop peer may hold (the add went out
 	/// with a commitment_signed and the peer never removed it off chain) only once the transaction
 	/// that closed the channel is buried by ANTI_REORG_DELAY blocks - whether or not the node was
 	/// restarted in between.
@@ -1131,7 +1131,7 @@ impl World {
 		if ids.iter().any(|id| self.oracle.removes_delivered.contains(&(ci, n, *id))) {
 			return;
 		}
-		self.out.bump("oracle:C11-2 no on-chain conclusion before the anti-reorg depth");
+		self.out.bump("oracle:C11-3 no on-chain conclusion before the anti-reorg depth");
 		let tip = self.chain.tip_height();
 		if let Some((h, tx)) = self.chain.confirmed_spender(&self.chans[ci].funding) {
 			let confs = tip + 1 - h;
@@ -1140,7 +1140,7 @@ impl World {
 				let restarted = self.nodes[n].incarnation > 0;
 				self.violate(
 					"C11",
-					"C11-2 HTLC failed on the strength of a transaction with fewer than 6 confirmations",
+					"C11-3 HTLC failed on the strength of a transaction with fewer than 6 confirmations",
 					format!(
 						"node {} pay {}: PaymentPathFailed for the part sent over channel {} (HTLC on the wire, never removed off chain) while the transaction {} spending the funding output has {} confirmation(s) (height {}, tip {}){}",
 						n, pay, ci, txid, confs, h, tip,
